@@ -2,19 +2,7 @@ import HdVerif.Proofs.VR
 import HdVerif.Proofs.Aliasing
 import HdVerif.Generated.T20vr
 import HdVerif.Generated.T20uid
-import HdVerif.Generated.T20alias_content
-import HdVerif.Generated.T20alias_seg_content
-import HdVerif.Generated.T20alias_seg_sop
-import HdVerif.Generated.T20alias_ann_content
-import HdVerif.Generated.T20alias_ann_sop
-import HdVerif.Generated.T20alias_ko_content
-import HdVerif.Generated.T20alias_ko_sop
-import HdVerif.Generated.T20alias_sr_coding
-import HdVerif.Generated.T20alias_sr_content
-import HdVerif.Generated.T20alias_sr_sop
-import HdVerif.Generated.T20alias_sr_value_types
-import HdVerif.Generated.T20alias_sr_templates
-import HdVerif.Generated.T20alias_image
+import HdVerif.Model.AliasTables
 /-!
 # C20  Building objects never alters inputs and always yields valid files
 
@@ -286,19 +274,6 @@ example : fromUuid uuidRoot (2 ^ 128 - 1) = .ok "2.25.34028236692093846346337460
 /-! ## copy-or-alias data flow -/
 open HdVerif.Aliasing
 
-/-- every extracted program (the tables are regenerated from /repo on every run) -/
-def allEntries : List Entry :=
-  alias_content ++ alias_seg_content ++ alias_seg_sop ++ alias_ann_content ++ alias_ann_sop ++ alias_ko_content ++
-  alias_ko_sop ++ alias_sr_coding ++ alias_sr_content ++ alias_sr_sop ++ alias_sr_value_types ++ alias_sr_templates ++
-  alias_image
-
-/-- converters the extractor could not abstract (none on the pinned tree); they are carried by the correspondence only -/
-def allSkipped : List String :=
-  aliasSkipped_content ++ aliasSkipped_seg_content ++ aliasSkipped_seg_sop ++ aliasSkipped_ann_content ++
-  aliasSkipped_ann_sop ++ aliasSkipped_ko_content ++ aliasSkipped_ko_sop ++ aliasSkipped_sr_coding ++
-  aliasSkipped_sr_content ++ aliasSkipped_sr_sop ++ aliasSkipped_sr_value_types ++ aliasSkipped_sr_templates ++
-  aliasSkipped_image
-
 /-- nothing was left out of the tables: every converter and both array helpers were abstracted -/
 theorem alias_extraction_complete : allSkipped = [] ∧ 60 ≤ allEntries.length := by decide
 
@@ -315,9 +290,11 @@ private theorem table_nocopy_param :
 private theorem table_copy :
     (allEntries.all fun e => !e.hasCopy || copyLeavesOriginal e) = true := by decide +kernel
 
-/-- the one converter that has to build a new container around the caller's items (a `ContentSequence` keeps a name
-index and cannot be obtained by re-classing a list); see `nocopy_returns_same` -/
-def rebuildsContainer (e : Entry) : Bool := e.name == "ContentSequence.from_sequence"
+/-- the converters that have to build a new container around the caller's items (a `ContentSequence` keeps a name
+index and cannot be obtained by re-classing a list; `MeasurementReport.from_sequence` is a re-classed
+`ContentSequence.from_sequence`); see `nocopy_returns_same` -/
+def rebuildsContainer (e : Entry) : Bool :=
+  e.name == "ContentSequence.from_sequence" || e.name == "MeasurementReport.from_sequence"
 
 private theorem table_nocopy :
     (allEntries.all fun e => !e.hasCopy || rebuildsContainer e || nocopyReturnsSame e) = true := by decide +kernel
@@ -347,8 +324,8 @@ theorem copy_leaves_original (e : Entry) (he : e ∈ allEntries) (hc : e.hasCopy
 
 /-- **nocopy_returns_same.**  For every converter with a `copy` parameter, called with `copy=False`: whatever it returns
 is the very object that was passed in (region 0, the root itself, not a view).  Full statement: for *every* such
-converter.  Proved for all but `ContentSequence.from_sequence`, which returns a new container holding the caller's
-items converted in place (`nocopy_content_sequence_rebuilds`); the correspondence checks item identity for it. -/
+converter.  Proved for all but `ContentSequence.from_sequence` and `MeasurementReport.from_sequence`, which return a new container
+holding the caller's items converted in place (`nocopy_content_sequence_rebuilds`); the correspondence checks item identity for it. -/
 theorem nocopy_returns_same (e : Entry) (he : e ∈ allEntries) (hc : e.hasCopy = true) (hq : rebuildsContainer e = false)
     (v : Nat) (hv : v.testBit 0 = false) (w : Nat → Nat → Nat) (store : Nat → Nat)
     (ref : Ref) (href : (run e.prog e.nIn v w store).result = some ref) : ref = ⟨0, true⟩ := by
